@@ -23,7 +23,8 @@ EXPLANATION = (
     'choose implements serialize_to_python, and the fall-through for unknown '
     'values raises; R-C13.5 every constructor argument a mutation stores is '
     'rendered by its get_hint_params (so the re-loaded mutation is the same '
-    'mutation), and placeholders refuse to run.')
+    'mutation), and placeholders refuse to run; '
+    'R-C13.1 also requires the models-import decision to be taken inside the loop over the rendered mutations when it tests a per-mutation value.')
 NOT_DECIDED = (
     'Semantic equality of the re-loaded mutations (same signature change, '
     'same SQL) for all values; validity of the rendered Python for every '
@@ -104,6 +105,39 @@ def r1_import_closure(ctx):
                         'Index...) render "models." too: NameError when the '
                         'hint is loaded' % ', '.join(narrow),
                         key='models-import-guarded-by-AddField')
+    # the decision is taken per rendered mutation: a test on a value that is
+    # computed inside the loop over the mutations must itself be inside it
+    from ..flow import ReachingDefs
+    from ..util import for_heads, loop_body_ids
+    rd = ReachingDefs(g, f.params)
+    heads = [h for h in for_heads(g) if '_mutations' in unparse(h.ast.iter)]
+    ctx.floor('loops over the task\'s mutations in get_evolution_content',
+              len(heads), 1)
+    body = set()
+    for h in heads:
+        body |= loop_body_ids(g, h)
+    for n, c in adds:
+        tests = [t for t in g.nodes if t.kind == 'test' and
+                 g.guarded_by(n, t, 'T')]
+        for t in tests:
+            per_mutation = []
+            for x in ast.walk(t.ast):
+                if isinstance(x, ast.Name) and isinstance(x.ctx, ast.Load):
+                    ds = [d for d in rd.reaching(t, x.id)
+                          if d.kind != 'mutate']
+                    if ds and all(d.node.id in body or d.kind == 'iter' and
+                                  d.node in heads for d in ds):
+                        per_mutation.append(x.id)
+            if per_mutation and t.id not in body:
+                ctx.finding(f, c, 'the models import is decided from %s '
+                            'after the loop over the mutations has finished: '
+                            'only the last mutation\'s line is inspected, a '
+                            '"models." reference in an earlier one gets no '
+                            'import' % ', '.join(sorted(set(per_mutation))),
+                            key='import-decided-after-loop')
+            elif per_mutation:
+                ctx.ok(f, 'import decision on %s is taken per mutation' %
+                       ', '.join(sorted(set(per_mutation))), c)
     # the import of the mutation classes covers every rendered mutation type
     if any(isinstance(c, ast.Call) and call_name(c) == 'sorted' and
            'mutation_types' in unparse(c) for c in walk_no_nested(f.node)):
